@@ -3,7 +3,9 @@
    Property theorems only: each is closed by `exact <lemma>` and followed by Print Assumptions.
    H = hash oracle (arbitrary function), hbits = its output length, G = (p, q, g); coins `raw` arbitrary integers.
    wf_params: 1 < p odd, 0 < q, g^q = 1 (mod p), |q| <= TMCG_MAX_FPOWM_T, 0 <= H(.) < 2^hbits.
-   elem a = CheckElement(a):  0 < a < p and a^q = 1 (mod p). *)
+   elem a = CheckElement(a):  0 < a < p and a^q = 1 (mod p).
+   The verifiers test every element of the statement for membership (fixes 38c5983, e22f683, fdc4557), so the statements'
+   elements are premised to be group members -- which they are for honest statements. *)
 From Coq Require Import ZArith List Lia String.
 From LT Require Import Zbase gen_Consts SigmaPrim KeyRingModel KeyRingLemmas SigmaModel SigmaLemmas.
 From LT Require Import gen_FSInputs FsModel SigmaFsAgree SigmaFsLemmas.
@@ -42,14 +44,14 @@ Proof. exact cp_complete_table. Qed.
 Print Assumptions C03_cp_table_complete.
 
 Theorem C03_or_first_complete : forall H hbits G, wf_params H hbits G -> forall h y2 g1 g2 alpha raw1 raw2 raw3 c1 c2 r1 r2,
-  powm g1 (gq G) (gp G) = 1 -> powm g2 (gq G) (gp G) = 1 -> powm y2 (gq G) (gp G) = 1 -> 0 <= alpha ->
+  powm g1 (gq G) (gp G) = 1 -> powm g2 (gq G) (gp G) = 1 -> elem G y2 -> 0 <= alpha ->
   or_prove_first H G h (powm g1 alpha (gp G)) y2 g1 g2 alpha raw1 raw2 raw3 = Some (c1, c2, r1, r2) ->
   or_verify H G h (powm g1 alpha (gp G)) y2 g1 g2 true c1 c2 r1 r2 = Accept.
 Proof. exact or_complete_first. Qed.
 Print Assumptions C03_or_first_complete.
 
 Theorem C03_or_second_complete : forall H hbits G, wf_params H hbits G -> forall h y1 g1 g2 alpha raw1 raw2 raw3 c1 c2 r1 r2,
-  powm g1 (gq G) (gp G) = 1 -> powm g2 (gq G) (gp G) = 1 -> powm y1 (gq G) (gp G) = 1 -> 0 <= alpha ->
+  powm g1 (gq G) (gp G) = 1 -> powm g2 (gq G) (gp G) = 1 -> elem G y1 -> 0 <= alpha ->
   or_prove_second H G h y1 (powm g2 alpha (gp G)) g1 g2 alpha raw1 raw2 raw3 = Some (c1, c2, r1, r2) ->
   or_verify H G h y1 (powm g2 alpha (gp G)) g1 g2 true c1 c2 r1 r2 = Accept.
 Proof. exact or_complete_second. Qed.
@@ -123,6 +125,19 @@ Example C03_nonvacuous_masking :
   mask dup_G 16 (precompute 16 11) 8 3 = Some (8, 16) /\
   mask_prove dup_H dup_G 16 (precompute 16 11) 8 8 16 3 7 = Some (0, 7) /\
   mask_verify dup_H 8 dup_G 16 (precompute 16 11) 8 8 16 true 0 7 = Accept.
+Proof. repeat split; vm_compute; reflexivity. Qed.
+(* statements whose elements are all group members exist: an OR proof (y_1 = 4^5, y_2 = 9, bases 4 and 8) and a re-masking
+   of the card (8, 16), both accepted *)
+Example C03_nonvacuous_or :
+  elem dup_G 9 /\ elem dup_G (powm 4 5 23) /\
+  or_prove_first dup_H dup_G 16 (powm 4 5 23) 9 4 8 5 3 7 6 = Some (5, 6, 0, 7) /\
+  or_verify dup_H dup_G 16 (powm 4 5 23) 9 4 8 true 5 6 0 7 = Accept.
+Proof. repeat split; vm_compute; reflexivity. Qed.
+Example C03_nonvacuous_remasking :
+  elem dup_G 8 /\ elem dup_G 16 /\
+  remask dup_G 16 (precompute 16 11) 8 16 4 = Some (13, 6) /\
+  remask_prove dup_H dup_G 16 (precompute 16 11) 8 16 13 6 4 9 = Some (0, 9) /\
+  remask_verify dup_H 8 dup_G 16 (precompute 16 11) 8 16 13 6 true 0 9 = Accept.
 Proof. repeat split; vm_compute; reflexivity. Qed.
 Example C03_nonvacuous_fs : List.length fs_agreements = 16%nat /\ In ("vsshe lambda"%string, true) fs_agreements.
 Proof. split; [reflexivity|]. vm_compute. tauto. Qed.
